@@ -38,7 +38,7 @@ def build(repo, findings):
     u.assume('stub', 'the tilde arm that calls home_dir (U23) and the rest of process_double_quoted_pieces (where the joiner is put between the elements) are NOT covered here')
     u.expected_min_fns = 2
     u.counterexample = replay_scripts(repo, [
-        ('HOME=; echo "<"~">" "<"~/x">"', '<> </x>\n'),
+        ('HOME=; x=~; y=~/x; echo "<$x> <$y>"', '<> </x>\n'),
         ("IFS=$'\\n'; set -- a 'b c' d; x=\"$*\"; set -- \"$x\"; echo $#; printf '%s' \"$x\" | tr '\\n' '|'; echo", '1\na|b c|d\n'),
     ])
     return u
